@@ -313,13 +313,20 @@ func (ms *Modules) process() []error {
 	// Collect the list of modules we know about now so when we range
 	// below we don't pick up new modules.  We assume the user tells
 	// us explicitly which modules they are interested in.
-	for _, m := range ms.Modules {
-		mods = append(mods, m)
-	}
-	// A submodule is normally reached through the module that includes it,
-	// but it may have been read without that module.
-	for _, m := range ms.SubModules {
-		mods = append(mods, m)
+	// The modules are visited in the order of their names: which files are
+	// fetched from the search path, and for which importer first, must not
+	// depend on map iteration order.
+	for _, set := range []map[string]*Module{ms.Modules, ms.SubModules} {
+		// A submodule is normally reached through the module that includes
+		// it, but it may have been read without that module.
+		names := make([]string, 0, len(set))
+		for name := range set {
+			names = append(names, name)
+		}
+		sort.Strings(names)
+		for _, name := range names {
+			mods = append(mods, set[name])
+		}
 	}
 	for _, m := range mods {
 		errs = append(errs, ms.include(m)...)
